@@ -34,10 +34,12 @@ var registry = map[string]entry{
 	"C25": {"exploration", props.C25},
 	"C26": {"exploration", props.C26},
 	"C27": {"exploration", props.C27},
+	"C29": {"exploration", props.C29},
 	"C30": {"exploration", props.C30},
 	"C31": {"exploration", props.C31},
 	"C32": {"exploration", props.C32},
 	"C36": {"exploration", props.C36},
+	"C37": {"exploration", props.C37},
 	"C28": {"exploration", props.C28},
 	"C20": {"exploration", comp.C20},
 	"C21": {"exploration", comp.C21},
@@ -85,6 +87,11 @@ func main() {
 func dispatchChild(id string, args []string) bool {
 	if len(args) >= 2 && args[0] == "--child-ro" {
 		os.Exit(props.ChildRO(args[1]))
+	}
+	if len(args) >= 2 && args[0] == "--child-inmem" {
+		var seed int64
+		fmt.Sscan(args[1], &seed)
+		os.Exit(props.ChildInMem(seed))
 	}
 	return false
 }
